@@ -19,12 +19,15 @@ pub struct C16 {
     /// the bar is built with_finish(this) first: a finish message with a tab is stored until
     /// finish_using_style() applies it (in the alphabet then)
     pub fin: Option<Fin>,
+    /// the bar is a member of a MultiProgress that is hidden during the history and gets the terminal at
+    /// the end (`MultiProgress::set_draw_target`), followed by one tick
+    pub hidden_multi: bool,
 }
 
 impl C16 {
     fn config(&self) -> String {
         let order = ["", " builder order tab-width,style", " builder order message,prefix,tab-width,style", " builder order tab-width,message,prefix,style"][self.order as usize];
-        format!("initial_template={} with_tab_width={:?}{order}{}{}", self.tpl0, self.initial_tab, if self.w != 80 { format!(" terminal width {}", self.w) } else { String::new() }, match self.fin { Some(f) => format!(" built with_finish({:?}) first", f), None => String::new() })
+        format!("initial_template={} with_tab_width={:?}{order}{}{}", self.tpl0, self.initial_tab, if self.w != 80 { format!(" terminal width {}", self.w) } else { String::new() }, match self.fin { Some(f) => format!(" built with_finish({:?}) first", f), None => String::new() }) + if self.hidden_multi { " member of a MultiProgress that is hidden until the end" } else { "" }
     }
 }
 
@@ -32,6 +35,11 @@ impl Hist for C16 {
     type Op = BOp;
 
     fn alphabet(&self, _p: &[BOp]) -> Vec<BOp> {
+        if self.tpl0 == 5 {
+            // {wide_msg} with a custom key registered as `msg` (no style round trips: they would carry the key
+            // over to the other templates)
+            return vec![BOp::Tick, BOp::Msg("m\tn"), BOp::Msg("plain"), BOp::Msg("\t\t"), BOp::TabWidth(0), BOp::TabWidth(2), BOp::TabWidth(8), BOp::Style(5), BOp::Style(0), BOp::Reset, BOp::FinishMsg("f\t")];
+        }
         vec![
             BOp::Tick,
             BOp::Msg("m\tn"),
@@ -59,10 +67,15 @@ impl Hist for C16 {
     fn run(&self, hist: &[BOp], stats: &mut Stats) -> Verdict {
         clock::reset();
         let spy = Spy::new(self.w, 40, false);
-        let mut pb = ProgressBar::with_draw_target(Some(5), ProgressDrawTarget::term_like(spy.boxed()));
+        let mp = self.hidden_multi.then(|| indicatif::MultiProgress::with_draw_target(ProgressDrawTarget::hidden()));
+        let mut pb = match mp.as_ref() {
+            Some(m) => m.add(ProgressBar::with_draw_target(Some(5), ProgressDrawTarget::hidden())),
+            None => ProgressBar::with_draw_target(Some(5), ProgressDrawTarget::term_like(spy.boxed())),
+        };
         let mut rf = RefState::new(Some(5), Fin::AndClear, self.tpl0);
         let t = self.initial_tab.unwrap_or(8);
         rf.tab_width = t;
+        rf.term_w = self.w;
         if let Some(f) = self.fin {
             pb = pb.with_finish(f.real());
             rf.on_finish = f;
@@ -111,6 +124,17 @@ impl Hist for C16 {
                 frame = Some(rf.render());
             }
         }
+        if let Some(m) = mp.as_ref() {
+            let r = catch(|| {
+                m.set_draw_target(ProgressDrawTarget::term_like(spy.boxed()));
+                pb.tick();
+            });
+            if let Err(p) = r {
+                let _ = catch(move || drop(pb));
+                return Verdict::Bad(Violation { class: format!("panic: {}", panic_class(&p)), config: self.config(), history: shown.clone(), detail: p });
+            }
+            frame = Some(rf.render());
+        }
         let g = catch(|| getters(&pb));
         let (doc, tab) = {
             let st = spy.st();
@@ -146,21 +170,26 @@ impl Hist for C16 {
 
 fn configs(tier: Tier) -> Vec<(C16, usize)> {
     let d = if tier == Tier::Quick { 5 } else { 6 };
-    let mut v = vec![(C16 { w: 80, tpl0: 2, initial_tab: None, order: 0, fin: None }, d), (C16 { w: 80, tpl0: 0, initial_tab: Some(4), order: 0, fin: None }, d - 1), (C16 { w: 80, tpl0: 1, initial_tab: Some(0), order: 0, fin: None }, d - 1)];
+    let mut v = vec![(C16 { w: 80, tpl0: 2, initial_tab: None, order: 0, fin: None, hidden_multi: false }, d), (C16 { w: 80, tpl0: 0, initial_tab: Some(4), order: 0, fin: None, hidden_multi: false }, d - 1), (C16 { w: 80, tpl0: 1, initial_tab: Some(0), order: 0, fin: None, hidden_multi: false }, d - 1)];
     // a terminal narrower than the tab width
-    v.push((C16 { w: 6, tpl0: 1, initial_tab: None, order: 0, fin: None }, d - 2));
-    v.push((C16 { w: 3, tpl0: 0, initial_tab: Some(4), order: 0, fin: None }, d - 2));
+    v.push((C16 { w: 6, tpl0: 1, initial_tab: None, order: 0, fin: None, hidden_multi: false }, d - 2));
+    v.push((C16 { w: 3, tpl0: 0, initial_tab: Some(4), order: 0, fin: None, hidden_multi: false }, d - 2));
     // the other builder orders, every template, shallower
     for order in 1..=3u8 {
         for tpl0 in 0..3 {
             for tab in [0usize, 4] {
-                v.push((C16 { w: 80, tpl0, initial_tab: Some(tab), order, fin: None }, d - 2));
+                v.push((C16 { w: 80, tpl0, initial_tab: Some(tab), order, fin: None, hidden_multi: false }, d - 2));
             }
         }
     }
+    v.push((C16 { w: 80, tpl0: 5, initial_tab: None, order: 0, fin: None, hidden_multi: false }, d - 1));
+    v.push((C16 { w: 12, tpl0: 5, initial_tab: Some(2), order: 1, fin: None, hidden_multi: false }, d - 2));
+    // a member of a hidden MultiProgress that is shown at the end
+    v.push((C16 { w: 80, tpl0: 1, initial_tab: None, order: 0, fin: None, hidden_multi: true }, d - 1));
+    v.push((C16 { w: 80, tpl0: 0, initial_tab: Some(4), order: 1, fin: None, hidden_multi: true }, d - 2));
     // a finish message with a tab, stored by with_finish before anything else and applied later
-    v.push((C16 { w: 80, tpl0: 2, initial_tab: None, order: 0, fin: Some(Fin::WithMessage) }, d - 1));
-    v.push((C16 { w: 80, tpl0: 0, initial_tab: Some(4), order: 1, fin: Some(Fin::AbandonWithMessage) }, d - 2));
+    v.push((C16 { w: 80, tpl0: 2, initial_tab: None, order: 0, fin: Some(Fin::WithMessage), hidden_multi: false }, d - 1));
+    v.push((C16 { w: 80, tpl0: 0, initial_tab: Some(4), order: 1, fin: Some(Fin::AbandonWithMessage), hidden_multi: false }, d - 2));
     v
 }
 
